@@ -53,7 +53,18 @@ theorem c20_differs_fails (v w : Val) (h : v ≠ w) : checkEq Gen.Compliance.cov
 theorem c20_equal_leaf_passes (s : String) (f : Bool) : checkEq Gen.Compliance.cover (.tok s f) (.tok s f) = true := by
   simp [checkEq, beqVal]
 
+/-- **No false failure**: a value whose objects carry exactly the attributes of the coverage table (what the harness
+    produces from real objects; the correspondence run confirms it on every generated pair) compares equal to itself. -/
+theorem c20_identical_pass (v : Val) (h : shaped Gen.Compliance.cover v = true) : checkEq Gen.Compliance.cover v v = true :=
+  checkEq_refl Gen.Compliance.cover v h
+
+/-- **The verdict is exactly equality of the data** on such values. -/
+theorem c20_verdict_iff (v w : Val) (h : shaped Gen.Compliance.cover v = true) :
+    checkEq Gen.Compliance.cover v w = true ↔ v = w :=
+  ⟨c20_detects v w, fun e => e ▸ c20_identical_pass v h⟩
+
 /-! non-vacuity -/
+example : shaped Gen.Compliance.cover (.node "Resource" [.tok "p" false, .tok "image/png" false]) = true := by decide
 example : overall [.success, .failed, .success] = .failed := by decide
 example : runScript [⟨"open", "open", ["IOError"], ["IOError"], false⟩, ⟨"read", "json.load", ["JSONDecodeError"], ["JSONDecodeError"], false⟩]
     [.ok false, .raises "JSONDecodeError"] = .ok [("open", .success), ("read", .failed)] := by rfl
